@@ -3,13 +3,17 @@
 package modules
 
 import (
+	"encoding/json"
 	"fmt"
 	"sort"
 	"strconv"
 	"strings"
+	"sync"
 
 	"github.com/ChainSafe/gossamer/dot/state"
+	"github.com/ChainSafe/gossamer/dot/types"
 	"github.com/ChainSafe/gossamer/internal/database"
+	"github.com/ChainSafe/gossamer/internal/log"
 	"github.com/ChainSafe/gossamer/lib/common"
 	"github.com/ChainSafe/gossamer/lib/runtime/storage"
 	"github.com/ChainSafe/gossamer/pkg/trie"
@@ -18,58 +22,34 @@ import (
 
 // One case = `<ver> <mode> <addr>|op;op;...`
 //   ver  : 0 | 1                 state trie version
-//   mode : mem | db              mem: the trie is cached in the storage state's Tries map;
-//                                db : the trie was written with StoreTrie and is served by a fresh
-//                                     InmemoryStorageState over the same database (LoadFromDB)
+//   mode : mem | db              mem: requests are served by the storage state that stored the tries
+//                                     (they are cached in its Tries map);
+//                                db : requests are served by a second InmemoryStorageState over the same
+//                                     database and block state, which must load every trie (LoadFromDB)
 //   addr : nil | root | blk      what the request's block field holds: nothing (best block), the
-//                                state root, or the hash of the block whose state this is
+//                                state root of the best block, or the hash of the best block
+// One case = one database, one real BlockState (from a genesis with the empty state), one serving
+// storage state.  A query that follows state changes first commits them: the full state is stored
+// (StoreTrie) and a block with that state root is added on top of the best block (new best).
 // ops (tokens: hex bytes with `-` = empty; request strings verbatim with `-` = ""):
-//   put k v | del k              build the state (`del` of a key that is not stored is a no-op)
+//   put k v | del k              change the state (`del` of a key that is not stored is a no-op)
 //   page P Q A                   one StateModule.GetKeysPaged{Prefix:P, Qty:Q, AfterKey:A}
 //   loop P Q                     the client loop: page after the last key returned, until an empty page
 //   pairs P                      StateModule.GetPairs{Prefix:&P} (`nil` = no prefix pointer)
+//   at I page|loop|pairs …       the same request against the I-th committed state (0 = genesis),
+//                                addressed by its state root (GetKeysPaged) / block hash (GetPairs);
+//                                does not commit; `bad-ix` when there is no such state yet
 // observables (joined by `;`):
 //   put/del : ok
 //   page    : err | none | key,key,...
 //   loop    : err | none | page/page/... (+ `/nonterm` when the cap of calls is reached)
 //   pairs   : err | none | key=value,...   (sorted by key when the listing came from the Entries map)
 
-// c38Store is the real InmemoryStorageState; only the resolution of "best block" and of a block
-// hash to a state root (the BlockState, which cannot be built offline) is supplied here.
-type c38Store struct {
-	*state.InmemoryStorageState
-	best common.Hash // state root of the best block
-	blk  common.Hash // hash of the (only) block
-}
+var c38Quiet sync.Once
 
-func (s *c38Store) GetStorage(root *common.Hash, key []byte) ([]byte, error) {
-	if root == nil {
-		root = &s.best
-	}
-	return s.InmemoryStorageState.GetStorage(root, key)
-}
+type c38Tel struct{}
 
-func (s *c38Store) Entries(root *common.Hash) (map[string][]byte, error) {
-	if root == nil {
-		root = &s.best
-	}
-	return s.InmemoryStorageState.Entries(root)
-}
-
-func (s *c38Store) GetKeysWithPrefix(root *common.Hash, prefix []byte) ([][]byte, error) {
-	if root == nil {
-		root = &s.best
-	}
-	return s.InmemoryStorageState.GetKeysWithPrefix(root, prefix)
-}
-
-func (s *c38Store) GetStateRootFromBlock(bhash *common.Hash) (*common.Hash, error) {
-	if bhash == nil || *bhash == s.blk {
-		r := s.best
-		return &r, nil
-	}
-	return nil, fmt.Errorf("block %s not found", bhash)
-}
+func (c38Tel) SendMessage(json.Marshaler) {}
 
 type c38KV struct {
 	del  bool
@@ -82,9 +62,13 @@ type c38Case struct {
 	addr   string
 	hist   []c38KV
 	stored map[string]bool
-	sm     *StateModule // nil when the state changed since the last query
-	st     *c38Store
+	dirty  bool
 	db     database.Database
+	bs     *state.BlockState
+	writer *state.InmemoryStorageState
+	sm     *StateModule
+	roots  []common.Hash // state root of every committed state; 0 = genesis
+	blocks []common.Hash // hash of the block that carries it
 }
 
 func (c *c38Case) close() {
@@ -94,9 +78,39 @@ func (c *c38Case) close() {
 	}
 }
 
-// build replays the history into a fresh trie, stores it in a fresh storage state.
-func (c *c38Case) build() error {
-	c.close()
+// open creates the database, the block state and the storage state(s) of the case.
+func (c *c38Case) open() error {
+	db, err := database.NewPebble("", true)
+	if err != nil {
+		return err
+	}
+	c.db = db
+	tries := state.NewTries()
+	genesis := &types.Header{Number: 0, StateRoot: trie.EmptyHash, Digest: types.NewDigest()}
+	c.bs, err = state.NewBlockStateFromGenesis(db, tries, genesis, c38Tel{})
+	if err != nil {
+		return err
+	}
+	c.writer, err = state.NewStorageState(db, c.bs, tries)
+	if err != nil {
+		return err
+	}
+	serve := c.writer
+	if c.mode == "db" {
+		// a storage state that is never handed a trie: it loads each one from the database
+		serve, err = state.NewStorageState(db, c.bs, state.NewTries())
+		if err != nil {
+			return err
+		}
+	}
+	c.sm = NewStateModule(nil, serve, nil, nil)
+	c.roots = []common.Hash{trie.EmptyHash}
+	c.blocks = []common.Hash{genesis.Hash()}
+	return nil
+}
+
+// commit replays the history into a fresh trie, stores it and adds a block with that state.
+func (c *c38Case) commit() error {
 	tr := inmemory.NewEmptyTrie()
 	tr.SetVersion(c.ver)
 	for _, h := range c.hist {
@@ -108,40 +122,36 @@ func (c *c38Case) build() error {
 			return err
 		}
 	}
-	db, err := database.NewPebble("", true)
-	if err != nil {
-		return err
-	}
-	c.db = db
-	ss, err := state.NewStorageState(db, nil, state.NewTries())
-	if err != nil {
-		return err
-	}
-	if err := ss.StoreTrie(storage.NewTrieState(tr), nil); err != nil {
-		return err
-	}
 	root := tr.MustHash()
-	if c.mode == "db" {
-		// a storage state that has never seen the trie: every access loads it from the database
-		ss, err = state.NewStorageState(db, nil, state.NewTries())
-		if err != nil {
-			return err
-		}
+	if err := c.writer.StoreTrie(storage.NewTrieState(tr), nil); err != nil {
+		return err
 	}
-	c.st = &c38Store{InmemoryStorageState: ss, best: root, blk: common.MustBlake2bHash(append([]byte("blk"), root[:]...))}
-	c.sm = NewStateModule(nil, c.st, nil, nil)
-	return nil
-}
-
-func (c *c38Case) block() *common.Hash {
-	switch c.addr {
-	case "root":
-		h := c.st.best
-		return &h
-	case "blk":
-		h := c.st.blk
-		return &h
+	prd, err := types.NewBabeSecondaryPlainPreDigest(0, uint64(len(c.blocks))).ToPreRuntimeDigest()
+	if err != nil {
+		return err
 	}
+	digest := types.NewDigest()
+	if err := digest.Add(*prd); err != nil {
+		return err
+	}
+	block := &types.Block{
+		Header: types.Header{
+			ParentHash: c.blocks[len(c.blocks)-1],
+			Number:     uint(len(c.blocks)),
+			StateRoot:  root,
+			Digest:     digest,
+		},
+		Body: *types.NewBody([]types.Extrinsic{}),
+	}
+	if err := c.bs.AddBlock(block); err != nil {
+		return err
+	}
+	if c.bs.BestBlockHash() != block.Header.Hash() {
+		return fmt.Errorf("new block is not the best block")
+	}
+	c.roots = append(c.roots, root)
+	c.blocks = append(c.blocks, block.Header.Hash())
+	c.dirty = false
 	return nil
 }
 
@@ -159,52 +169,49 @@ func c38Join(ks []string) string {
 	return strings.Join(ks, ",")
 }
 
-func (c *c38Case) op(op string) string {
-	f := strings.Fields(op)
-	if len(f) == 0 {
-		return "bad-op"
-	}
+// c38Query is a parsed request.
+type c38Query struct {
+	kind   string // page | loop | pairs
+	prefix string
+	nilPfx bool
+	qty    uint32
+	after  string
+}
+
+func c38ParseQuery(f []string) (q c38Query, ok bool) {
 	switch {
-	case f[0] == "put" && len(f) == 3:
-		k, v := vhUnhex(f[1]), vhUnhex(f[2])
-		c.hist = append(c.hist, c38KV{k: k, v: v})
-		c.stored[string(k)] = true
-		c.sm = nil
-		return "ok"
-	case f[0] == "del" && len(f) == 2:
-		k := vhUnhex(f[1])
-		if c.stored[string(k)] {
-			c.hist = append(c.hist, c38KV{del: true, k: k})
-			delete(c.stored, string(k))
-			c.sm = nil
-		}
-		return "ok"
-	}
-	if f[0] != "page" && f[0] != "loop" && f[0] != "pairs" {
-		return "bad-op"
-	}
-	if c.sm == nil {
-		if err := c.build(); err != nil {
-			return "err-build"
-		}
-	}
-	switch {
-	case f[0] == "page" && len(f) == 4:
-		q, err := strconv.ParseUint(f[2], 10, 32)
+	case len(f) == 4 && f[0] == "page":
+		n, err := strconv.ParseUint(f[2], 10, 32)
 		if err != nil {
-			return "bad-op"
+			return q, false
 		}
+		return c38Query{kind: "page", prefix: c38Str(f[1]), qty: uint32(n), after: c38Str(f[3])}, true
+	case len(f) == 3 && f[0] == "loop":
+		n, err := strconv.ParseUint(f[2], 10, 32)
+		if err != nil {
+			return q, false
+		}
+		return c38Query{kind: "loop", prefix: c38Str(f[1]), qty: uint32(n)}, true
+	case len(f) == 2 && f[0] == "pairs":
+		if f[1] == "nil" {
+			return c38Query{kind: "pairs", nilPfx: true}, true
+		}
+		return c38Query{kind: "pairs", prefix: c38Str(f[1])}, true
+	}
+	return q, false
+}
+
+// query runs one request; `paged` / `pairs` are the block fields for GetKeysPaged / GetPairs.
+func (c *c38Case) query(q c38Query, paged, pairs *common.Hash) string {
+	switch q.kind {
+	case "page":
 		var res StateStorageKeysResponse
-		req := &StateStorageKeyRequest{Prefix: c38Str(f[1]), Qty: uint32(q), AfterKey: c38Str(f[3]), Block: c.block()}
+		req := &StateStorageKeyRequest{Prefix: q.prefix, Qty: q.qty, AfterKey: q.after, Block: paged}
 		if err := c.sm.GetKeysPaged(nil, req, &res); err != nil {
 			return "err"
 		}
 		return c38Join(res)
-	case f[0] == "loop" && len(f) == 3:
-		q, err := strconv.ParseUint(f[2], 10, 32)
-		if err != nil {
-			return "bad-op"
-		}
+	case "loop":
 		// every key was put by an earlier op of this line: more calls than that (+2) is a loop
 		limit := 2
 		for _, h := range c.hist {
@@ -220,7 +227,7 @@ func (c *c38Case) op(op string) string {
 				break
 			}
 			var res StateStorageKeysResponse
-			req := &StateStorageKeyRequest{Prefix: c38Str(f[1]), Qty: uint32(q), AfterKey: after, Block: c.block()}
+			req := &StateStorageKeyRequest{Prefix: q.prefix, Qty: q.qty, AfterKey: after, Block: paged}
 			if err := c.sm.GetKeysPaged(nil, req, &res); err != nil {
 				pages = append(pages, "err")
 				break
@@ -235,15 +242,15 @@ func (c *c38Case) op(op string) string {
 			return "none"
 		}
 		return strings.Join(pages, "/")
-	case f[0] == "pairs" && len(f) == 2:
+	case "pairs":
 		var pfx *string
-		if f[1] != "nil" {
-			s := c38Str(f[1])
+		if !q.nilPfx {
+			s := q.prefix
 			pfx = &s
 		}
 		fromMap := pfx == nil || *pfx == "" || *pfx == "0x"
 		var res StatePairResponse
-		req := &StatePairRequest{Prefix: pfx, Bhash: c.block()}
+		req := &StatePairRequest{Prefix: pfx, Bhash: pairs}
 		if err := c.sm.GetPairs(nil, req, &res); err != nil {
 			return "err"
 		}
@@ -268,6 +275,62 @@ func (c *c38Case) op(op string) string {
 	return "bad-op"
 }
 
+func (c *c38Case) op(op string) string {
+	f := strings.Fields(op)
+	if len(f) == 0 {
+		return "bad-op"
+	}
+	switch {
+	case f[0] == "put" && len(f) == 3:
+		k, v := vhUnhex(f[1]), vhUnhex(f[2])
+		c.hist = append(c.hist, c38KV{k: k, v: v})
+		c.stored[string(k)] = true
+		c.dirty = true
+		return "ok"
+	case f[0] == "del" && len(f) == 2:
+		k := vhUnhex(f[1])
+		if c.stored[string(k)] {
+			c.hist = append(c.hist, c38KV{del: true, k: k})
+			delete(c.stored, string(k))
+			c.dirty = true
+		}
+		return "ok"
+	case f[0] == "at" && len(f) >= 3:
+		ix, err := strconv.ParseUint(f[1], 10, 31)
+		if err != nil {
+			return "bad-op"
+		}
+		q, ok := c38ParseQuery(f[2:])
+		if !ok {
+			return "bad-op"
+		}
+		if int(ix) >= len(c.roots) {
+			return "bad-ix"
+		}
+		root, blk := c.roots[ix], c.blocks[ix]
+		return c.query(q, &root, &blk)
+	}
+	q, ok := c38ParseQuery(f)
+	if !ok {
+		return "bad-op"
+	}
+	if c.dirty {
+		if err := c.commit(); err != nil {
+			return "err-commit " + err.Error()
+		}
+	}
+	var blk *common.Hash
+	switch c.addr {
+	case "root":
+		h := c.roots[len(c.roots)-1]
+		blk = &h
+	case "blk":
+		h := c.blocks[len(c.blocks)-1]
+		blk = &h
+	}
+	return c.query(q, blk, blk)
+}
+
 func c38Run(line string) string {
 	i := strings.IndexByte(line, '|')
 	if i < 0 {
@@ -289,6 +352,11 @@ func c38Run(line string) string {
 	}
 	if (c.mode != "mem" && c.mode != "db") || (c.addr != "nil" && c.addr != "root" && c.addr != "blk") {
 		return "bad-op"
+	}
+	// the block state logs every finalisation / import at info level
+	c38Quiet.Do(func() { log.Patch(log.SetLevel(log.Critical)) })
+	if err := c.open(); err != nil {
+		return "err-open " + err.Error()
 	}
 	ops := strings.Split(line[i+1:], ";")
 	outs := make([]string, len(ops))
